@@ -3,7 +3,7 @@
 (* The rules on the match finder's state (see DeflateLZ.tla), as a pure    *)
 (* operator over a projection record                                       *)
 (*   [lapos, lasize, dsize, taken, hist_bad, look_bad, mirror_bad, idle,   *)
-(*    flush]                                                               *)
+(*    flush, fillmax]                                                      *)
 (* so that the model (MC_DeflateLZ: its own state, DICT = 8) and the trace *)
 (* specification (the real compressor's state read through the            *)
 (* verif_lz_state hook after every call, DICT = 32768) evaluate the same   *)
@@ -14,6 +14,9 @@ EXTENDS Integers, Sequences
 \* the rules (names of the broken ones), parameterised by the real or the model constants
 StateRules(p, dictc, maxm) ==
      (IF p.lasize + p.dsize <= dictc THEN <<>> ELSE <<"lz_lookahead_plus_history_fit_the_window">>)
+  \* the same inside the call: the largest look-ahead + history the match finder ever worked with
+  \* (the ring holds both: one byte more and the newest look-ahead byte overwrites the oldest history byte)
+  \o (IF "fillmax" \in DOMAIN p => p.fillmax <= dictc THEN <<>> ELSE <<"lz_lookahead_plus_history_fit_the_window_during_the_call">>)
   \o (IF p.lapos + p.lasize = p.taken THEN <<>> ELSE <<"lz_every_taken_byte_is_moved_or_in_lookahead">>)
   \o (IF p.dsize <= p.lapos THEN <<>> ELSE <<"lz_history_not_larger_than_processed">>)
   \o (IF p.lasize <= maxm THEN <<>> ELSE <<"lz_lookahead_le_max_match">>)
